@@ -33,6 +33,7 @@ Expected(fs) ==
   [ profile  |-> Profile(AllLens(fs)),
     counts   |-> Counts(AllLens(fs)),
     fileProfile |-> [f \in Files |-> Profile(LensOf(fs, f))],
+    fileCounts  |-> [f \in Files |-> Counts(LensOf(fs, f))],     \* what the overview printed by `scan` shows per language (one file per language)
     findings |-> SortDesc(SelectSeq(AllLens(fs), IsFinding)),
     listing  |-> [f \in Files |-> CheckListing(fs, f)],
     count    |-> CheckCount(fs),
